@@ -5,7 +5,7 @@ import random
 
 from .common import Budget, project_scratch, script_header
 
-VALS = [None, None, 0, 1, 2, 1.0, 2.5, "a", "b", None, [1, 2], [1, 2.0], True, False, {"n": 1}, {"n": 2, "m": "x"}, {"n": {"z": 1}}]
+VALS = [None, None, 0, 1, 2, 1.0, 2.5, "a", "b", None, [1, 2], [1, 2.0], True, False, {"n": 1}, {"n": 2, "m": "x"}, {"n": {"z": 1}}, 0.0, 0, 0.0, -1, -1.0, [0, 1], [0.0, 1]]
 KEYS = ["a", "b", "c", "seed", "p", "ps", "speed"]       # incl. names made of the letters of the "sp." prefix
 
 
@@ -211,7 +211,7 @@ with tempfile.TemporaryDirectory() as d:
         got = {t.__name__: set(vs) for t, vs in sch["v"].items()} if "v" in sch else {}
         if got != {"bool": {True}, "int": {1}}:
             failures.append({"key": "find:$type-bool-conflation", "description": "known finding F3 (schema side)", "script": ""})
-    return {"scope": "corpora of 0-8 jobs over 3 keys x 15 values (int / equal float / bool, lists, None, nested and empty mappings, scalar-vs-mapping under one key), "
+    return {"scope": "corpora of 0-8 jobs over 7 keys x 22 values (int / equal float incl. 0 / 0.0 and -1 / -1.0 / bool, lists, None, nested and empty mappings, scalar-vs-mapping under one key), "
                      "random subsets, exclude_const on/off; corpora triggering known finding F3 are excluded from the schema comparison; plus lists holding mappings (holding mappings) "
                      "spelled in two key orders: one value, constant under exclude_const, absent from the diff",
             "evaluations": evals, "distinct_nontrivial": len(distinct), "rule": "a case is one detect_schema or diff_jobs call; distinct by (kind, #jobs, options, size of the summary)",
